@@ -42,7 +42,7 @@ def valueLarge (b : Large) : Nat :=
   + b[13].toNat * 2 ^ 371 + b[14].toNat * 2 ^ 399 + b[15].toNat * 2 ^ 428 + b[16].toNat * 2 ^ 456
 
 /-- the field element (mod p) a limb vector stands for: value · R⁻¹ -/
-def repr (a : Limbs) : Nat := value a * RInverse % P
+def fieldRepr (a : Limbs) : Nat := value a * RInverse % P
 
 -- constants ------------------------------------------------------------------------------------------
 
